@@ -1,5 +1,7 @@
 import SJ.Proofs.Facts
 import SJ.Model.Tape
+import SJ.Proofs.Rebuild
+import SJ.Proofs.WalkSafe
 /-
 C19 — Deserialize never panics on corrupt or truncated bytes.
 -/
@@ -11,5 +13,27 @@ theorem C19_two_entry_guard : caseOfSw swDeserialize 0 0 = [cTagString, cTagFloa
 
 theorem C19_deserialize_cases : swDeserialize.length = 2 ∧ (swDeserialize.getD 1 []).length = 9 := by
   rw [Facts.deserialize_cases]; decide
+
+open SJ.Rebuild
+
+/-- **Deserialize never panics**: for every codec behaviour, every byte string and every previous content of the
+    destination, the result is a value or an error — never an out-of-range access, never a non-terminating loop. -/
+theorem C19_deserialize_no_panic (codec : Codec) (src : Bytes) (prior : Array UInt64) :
+    deserialize codec src prior ≠ .panic ∧ deserialize codec src prior ≠ .diverge := deserialize_no_panic codec src prior
+/-- The reconstruction loop alone, for arbitrary tag and value streams. -/
+theorem C19_rebuild_no_panic (init : Array UInt64) (tags values : Bytes) :
+    rebuild init tags values ≠ .panic ∧ rebuild init tags values ≠ .diverge ∧
+    ∀ tp, rebuild init tags values = .ok tp → tp.size = init.size := rebuild_no_panic init tags values
+/-- Every branch of the reconstruction that writes two entries is covered by the guard in front of the switch
+    (a statement about the case lists extracted from the source). -/
+theorem C19_guard_covers (t : UInt8)
+    (h : inCase (caseOfSw swDeserialize 1 1) t = true ∨ inCase (caseOfSw swDeserialize 1 2) t = true ∨
+         inCase (caseOfSw swDeserialize 1 3) t = true) : inCase (caseOfSw swDeserialize 0 0) t = true := two_entry_guard_covers t h
+/-- **On whatever tape comes back**, traversal and marshalling terminate without panic. -/
+theorem C19_result_walkable (pj : PJ) :
+    SJ.WalkSafe.OkOrErr (owalk pj) ∧ SJ.WalkSafe.OkOrErr (Iter.interface pj (Iter.ofPJ pj) (fuelOf pj)) ∧
+    SJ.WalkSafe.OkOrErr (Iter.marshalBuf pj (Iter.ofPJ pj) #[]) :=
+  ⟨SJ.WalkSafe.owalk_safe pj, SJ.WalkSafe.interface_safe pj _ (SJ.WalkSafe.ofPJ_valid pj),
+   SJ.WalkSafe.marshalBuf_safe pj _ _ (SJ.WalkSafe.ofPJ_valid pj)⟩
 
 end SJ.Properties.C19
